@@ -60,7 +60,7 @@ TCloseRet      == Is("close.ret") /\ Keep /\ Ev.ok /\ st = "closing" /\ FlushFin
 TSearchStart == Is("search.start") /\ Keep /\ SearchStart /\ Cardinality(se'.todo) = Ev.nseg /\ Len(mq) = Ev.nmem
 TSearchSeg   == Is("search.seg") /\ Keep /\ SearchSeg(Ev.sid)
 
-\* k nearest of a set of ids for the query at the origin (document i sits at distance i)
+\* k nearest of a set of ids for the query placed on document 1 (document i sits at distance (i-1)^2, document 1 at exactly 0)
 KNearest(S, k) == IF k >= Cardinality(S) THEN S ELSE {x \in S : Cardinality({y \in S : y < x}) < k}
 \* answers the real store may give: exactly the specification's set; for a crash image whose damaged file still decodes, also with that segment
 Admissible == {se.res} \cup (IF saved # <<>> /\ saved[2].kind = "prefix" /\ (\A c \in AllComps \ {saved[2].c} : disk[saved[2].sid][c].st = "full")
@@ -69,7 +69,7 @@ Report(kind, what) == PrintT("REPORT " \o kind \o " " \o ToString(l) \o " " \o T
 TSearchRet ==
   /\ Is("search.ret") /\ Keep /\ Ev.ok /\ Done
   /\ \E vis \in Admissible :
-       \* a distance threshold keeps the documents 1..cut (document i sits at distance i*i from the query); cut = 0: no threshold
+       \* a distance threshold keeps the documents 1..cut; cut = 0: no threshold
        /\ SetOf(Ev.resV) = KNearest(IF Ev.cut > 0 THEN {x \in vis : x <= Ev.cut} ELSE vis, Ev.k)
        /\ (Ev.tm => (("t" \in Comps => SetOf(Ev.resT) = vis) /\ ("m" \in Comps => SetOf(Ev.resM) = vis)))
        \* property monitors on the real answer
